@@ -140,6 +140,30 @@ func isGeneratedCall(n ast.Node) bool {
 	return ok && id.Name == "error"
 }
 
+// importsDropped returns the import specs (name and path) of the source file that the generated
+// file does not have: cff may add imports, it must not remove any (a blank import is there for its
+// side effects).
+func importsDropped(src, gen *ast.File) []string {
+	have := map[string]bool{}
+	key := func(im *ast.ImportSpec) string {
+		n := ""
+		if im.Name != nil {
+			n = im.Name.Name
+		}
+		return n + " " + im.Path.Value
+	}
+	for _, im := range gen.Imports {
+		have[key(im)] = true
+	}
+	var out []string
+	for _, im := range src.Imports {
+		if !have[key(im)] {
+			out = append(out, strings.TrimSpace(key(im)))
+		}
+	}
+	return out
+}
+
 // astDiff compares the source and the generated file after replacing the
 // directive call / generated closure call by a placeholder and ignoring
 // imports, comments and positions.
@@ -154,6 +178,9 @@ func astDiff(srcPath string, src []byte, gen *ast.File) string {
 	if a.String() == b.String() {
 		if !strings.Contains(a.String(), placeholder) {
 			return "no-directive-found"
+		}
+		if d := importsDropped(sf, gen); len(d) > 0 {
+			return "import-dropped:" + squash(strings.Join(d, ","))
 		}
 		return "ok"
 	}
